@@ -32,10 +32,6 @@ Proof.
   intros l. simpl. rewrite dabs_ok, dmul_ok, dN_ok. reflexivity.
 Qed.
 
-Definition s2q (rows : list drow) (cols : list param) (cov : param -> param -> D) : Q := D2Q (ds2i rows cols cov).
-Lemma s2q_head rows a cols cov : s2q rows (a :: cols) cov == NCq rows (a :: cols) cov a a.
-Proof. unfold s2q, ds2i. apply dNC_ok. Qed.
-
 Lemma D2Q_Z z : D2Q (z, 0%Z) == inject_Z z.
 Proof. unfold D2Q. simpl. ring. Qed.
 
@@ -44,20 +40,18 @@ Ltac dq H := repeat (first [rewrite dadd_ok in H | rewrite dmul_ok in H | rewrit
 
 (* (1) soundness of the judge *)
 Lemma cov_ok_sound e ef rows p cols cov : cov_ok e ef rows p cols cov = true ->
-  let s2 := s2q rows cols cov in
   let dof := inject_Z (Z.of_nat (length rows) - Z.of_nat (length cols)) in
+  let ssr := S (map qrow rows) (qpar p) in
   0 < dof /\
   (forall a b, In a cols -> In b cols ->
-     let rhs := if param_eqb a b then s2 else 0 in
-     Qabs (NCq rows cols cov a b - rhs) <= Qpower 2 e * (NCabsq rows cols cov a b + Qabs rhs) + Qpower 2 (-40) * Qabs s2) /\
-  Qabs (dof * s2 - S (map qrow rows) (qpar p)) <=
-     Qpower 2 e * (Qabs (dof * s2) + S (map qrow rows) (qpar p)) + Qpower 2 ef * D2Q (dY2 rows p).
+     let rhs := if param_eqb a b then ssr else 0 in
+     Qabs (dof * NCq rows cols cov a b - rhs) <=
+       Qpower 2 e * (dof * NCabsq rows cols cov a b + Qabs rhs) + (Qpower 2 ef * D2Q (dY2 rows p) + Qpower 2 (-40) * ssr)).
 Proof.
-  unfold cov_ok. rewrite !andb_true_iff. intros [[Hd Hc] Hs]. cbv zeta. split; [|split].
+  unfold cov_ok. rewrite andb_true_iff. intros [Hd Hc]. cbv zeta. split.
   - apply Z.ltb_lt in Hd. simpl in Hd. rewrite Zlt_Qlt in Hd. exact Hd.
   - intros a b Ha Hb. rewrite forallb_forall in Hc. specialize (Hc a Ha). rewrite forallb_forall in Hc. specialize (Hc b Hb).
-    apply dle_ok in Hc. unfold s2q. destruct (param_eqb a b); dq Hc; exact Hc.
-  - apply dle_ok in Hs. dq Hs. unfold s2q. exact Hs.
+    apply dle_ok in Hc. destruct (param_eqb a b); dq Hc; exact Hc.
 Qed.
 
 (* (2) the exact identity determines the covariance *)
